@@ -7,6 +7,7 @@ import (
 	"math"
 	"regexp"
 	"sort"
+	"strconv"
 	"strings"
 
 	"golang.org/x/tools/go/ssa"
@@ -785,68 +786,8 @@ func rulesC03(w *World, r *Report) {
 		r.Check(a1 == "p2", "C03.R4", "UpdatePointForArchive:best-archive-arg", w.instrPos(c), "the best archive is chosen for the point's own time", "findBestArchive is called with "+a1+" instead of the point's timestamp: points at a retention boundary are routed to the wrong archive")
 	}
 	// R3
-	r.Rule("C03.R3", "shape of the partition: extractPoints scans i from len-1 downwards, tests points[i].Time <= now.Add(-maxRetention), and on a hit returns (points[i+1:], points[:i+1]) for that i; the fall-through returns (points, empty)", 3)
-	{
-		ex := newExprCtx(w)
-		rets := returnsOf(extract)
-		var hit, fall *ssa.Return
-		for _, rt := range rets {
-			a, b := ex.expr(rt.Results[0]), ex.expr(rt.Results[1])
-			if a == "p0" && (b == "nil" || strings.HasPrefix(b, "make(") || b == "p0[:0]") {
-				fall = rt
-			} else {
-				hit = rt
-			}
-		}
-		r.Check(fall != nil && len(rets) == 2, "C03.R3", "extractPoints:fall-through", w.pos(extract.Pos()), "no stale point: the whole batch is current", fmt.Sprintf("extractPoints must have exactly the hit return and the fall-through return (points, empty); found %d returns", len(rets)))
-		if hit != nil {
-			ex2 := newExprCtx(w)
-			a, b := ex2.expr(hit.Results[0]), ex2.expr(hit.Results[1])
-			m1 := regexp.MustCompile(`^p0\[\((i\d+) \+ 1\):\]$`).FindStringSubmatch(a)
-			m2 := regexp.MustCompile(`^p0\[:\((i\d+) \+ 1\)\]$`).FindStringSubmatch(b)
-			okHit := m1 != nil && m2 != nil && m1[1] == m2[1]
-			r.Check(okHit, "C03.R3", "extractPoints:split", w.instrPos(hit), "returns (points[i+1:], points[:i+1])", "on a stale point at index i the function must return (points[i+1:], points[:i+1]); it returns ("+a+", "+b+"): fresh points are dropped or diverted")
-			// the scan index: phi(len-1, i-1) and the test on points[i].Time
-			okScan := false
-			if ph := findPhiByName(hit, extract); ph != nil {
-				var hasInit, hasDec bool
-				for _, ed := range ph.Edges {
-					s := newExprCtx(w).expr(ed)
-					if s == "(len(p0) - 1)" {
-						hasInit = true
-					}
-					if bo, ok := ed.(*ssa.BinOp); ok && bo.Op == token.SUB && bo.X == ssa.Value(ph) {
-						if k, ok := constInt(bo.Y); ok && k == 1 {
-							hasDec = true
-						}
-					}
-				}
-				okScan = hasInit && hasDec
-			}
-			r.Check(okScan, "C03.R3", "extractPoints:backward-scan", w.pos(extract.Pos()), "i runs from len-1 down", "the scan does not run from the last point backwards")
-			// the hit is guarded by points[i].Time <= now.Add(-maxRetention)
-			okTest := false
-			for _, b := range extract.Blocks {
-				if len(b.Instrs) == 0 {
-					continue
-				}
-				iff, ok := b.Instrs[len(b.Instrs)-1].(*ssa.If)
-				if !ok {
-					continue
-				}
-				bo, ok := iff.Cond.(*ssa.BinOp)
-				if !ok {
-					continue
-				}
-				ex3 := newExprCtx(w)
-				xs, ys := ex3.expr(bo.X), ex3.expr(bo.Y)
-				if regexp.MustCompile(`^p0\[i\d+\]\.Time$`).MatchString(xs) && ys == "whispertool.Timestamp.Add(p1, -p2)" && bo.Op == token.LEQ && edgeDominates(b, b.Succs[0], hit.Block()) {
-					okTest = true
-				}
-			}
-			r.Check(okTest, "C03.R3", "extractPoints:stale-test", w.pos(extract.Pos()), "a point is stale iff its time <= now - retention", "the hit is not guarded by points[i].Time <= now.Add(-maxRetention)")
-		}
-	}
+	r.Rule("C03.R3", "partition (decision diagram over a 3-point batch): for every assignment of 'point j is stale' (points[j].Time <= now.Add(-maxRetention), the only test on the points) extractPoints returns (points[k:], points[:k]) where k-1 is the last stale index (k = 0: the whole batch and an empty remainder); every point after k-1 was tested and found fresh", 3)
+	ruleExtractPointsDD(w, r, "C03.R3", extract)
 	r.Rule("C03.R5", "no in-range point is lost inside the per-archive writer: archiveUpdateMany aligns and stores every point of the batch it is given", 2)
 	ruleWriterWritesAll(w, r, "C03.R5")
 	// R4 routing in UpdatePointsForArchive
@@ -910,3 +851,160 @@ func findPhiByName(ret *ssa.Return, f *ssa.Function) *ssa.Phi {
 }
 
 var _ = sort.Strings
+
+// idxOff parses a rendered index expression iN, (iN + k) or (iN - k) into (variable, offset).
+func idxOff(s string) (string, int64, bool) {
+	if m := regexp.MustCompile(`^(i\d+)$`).FindStringSubmatch(s); m != nil {
+		return m[1], 0, true
+	}
+	if m := regexp.MustCompile(`^\((i\d+) ([-+]) (\d+)\)$`).FindStringSubmatch(s); m != nil {
+		k, _ := strconv.ParseInt(m[3], 10, 64)
+		if m[2] == "-" {
+			k = -k
+		}
+		return m[1], k, true
+	}
+	return "", 0, false
+}
+
+// ruleExtractPointsDD decides the partition function semantically: the batch length is bound to 3, the function's
+// decision diagram is enumerated with one atom per tested element, and every leaf must return the split at the
+// last stale element.
+func ruleExtractPointsDD(w *World, r *Report, rule string, f *ssa.Function) {
+	const n = 3
+	pos := w.pos(f.Pos())
+	if len(f.Params) != 3 {
+		r.Undecided(rule, "extractPoints:signature", pos, "extractPoints no longer takes (points, now, maxRetention)")
+		return
+	}
+	pts := f.Params[0]
+	e := &ddEngine{w: w, env: map[ssa.Value]aval{}, maxLeafs: 64, concreteAtoms: true}
+	eachInstr(f, func(in ssa.Instruction) {
+		if c, ok := in.(*ssa.Call); ok {
+			if b, ok := c.Call.Value.(*ssa.Builtin); ok && b.Name() == "len" && stripChangeType(c.Call.Args[0]) == ssa.Value(pts) {
+				e.env[c] = aval{k: kInt, i: n}
+			}
+		}
+	})
+	e.run(f)
+	if e.err != nil {
+		for _, k := range []string{"fall-through", "split", "backward-scan", "stale-test"} {
+			r.Undecided(rule, "extractPoints:"+k, pos, "the decision diagram of extractPoints could not be evaluated for a batch of 3 points: "+e.err.Error())
+		}
+		return
+	}
+	reIdx := regexp.MustCompile(`\[(-?\d+)\]`)
+	var badTest, badSplit, badScan []string
+	sawFall := false
+	for _, l := range e.leaves {
+		if l.panics || l.ret == nil || len(l.ret.Results) != 2 {
+			badSplit = append(badSplit, "a path panics or does not return the two lists")
+			continue
+		}
+		// staleness of the tested elements on this path
+		stale := map[int]bool{}
+		for key, chosen := range l.atoms {
+			bo, ok := l.atomVal[key].(*ssa.BinOp)
+			m := reIdx.FindStringSubmatch(key)
+			if !ok || m == nil || !isCmp(bo.Op) {
+				badTest = append(badTest, "a branch inside extractPoints depends on "+key+", which is not a comparison of one point's time with the cutoff")
+				continue
+			}
+			j, _ := strconv.Atoi(m[1])
+			ex := newExprCtx(w)
+			xs, ys := ex.expr(bo.X), ex.expr(bo.Y)
+			op := bo.Op
+			if !strings.HasSuffix(xs, ".Time") {
+				op, xs, ys = mirrorOp(op), ys, xs
+			}
+			if !strings.HasSuffix(xs, ".Time") || !strings.HasPrefix(xs, "p0[") || ys != "whispertool.Timestamp.Add(p1, -p2)" {
+				badTest = append(badTest, "the test compares "+xs+" with "+ys+", not a point's time with now.Add(-maxRetention)")
+				continue
+			}
+			switch op {
+			case token.LEQ:
+				stale[j] = chosen
+			case token.GTR:
+				stale[j] = !chosen
+			default:
+				badTest = append(badTest, "a point is taken as stale when its time "+op.String()+" the cutoff; the partition requires time <= now - retention")
+			}
+		}
+		// the returned split
+		k, ok := splitIndex(e, l, pts, n)
+		if !ok {
+			ex := newExprCtx(w)
+			badSplit = append(badSplit, "returns ("+ex.expr(l.ret.Results[0])+", "+ex.expr(l.ret.Results[1])+"), not (points[k:], points[:k])")
+			continue
+		}
+		if k == 0 {
+			sawFall = true
+		}
+		for j := k; j < n; j++ {
+			if st, tested := stale[j]; !tested || st {
+				badScan = append(badScan, fmt.Sprintf("with split index %d the point at index %d was not tested or is stale: a stale point stays in the current list", k, j))
+			}
+		}
+		if k > 0 {
+			if st, tested := stale[k-1]; !tested || !st {
+				badScan = append(badScan, fmt.Sprintf("with split index %d the point at index %d is not stale: fresh points are diverted to the remainder", k, k-1))
+			}
+		}
+	}
+	first := func(l []string) string {
+		sort.Strings(l)
+		if len(l) > 0 {
+			return l[0]
+		}
+		return ""
+	}
+	r.Check(sawFall, rule, "extractPoints:fall-through", pos, "no stale point: the whole batch is current and the remainder is empty", "no path returns the whole batch with an empty remainder")
+	r.Check(len(badSplit) == 0, rule, "extractPoints:split", pos, fmt.Sprintf("all %d paths return (points[k:], points[:k])", len(e.leaves)), "on a stale point at index i the function must return (points[i+1:], points[:i+1]): "+first(badSplit))
+	r.Check(len(badScan) == 0, rule, "extractPoints:backward-scan", pos, "k-1 is the last stale index on every path", "the split is not at the last stale point: "+first(badScan))
+	r.Check(len(badTest) == 0, rule, "extractPoints:stale-test", pos, "a point is stale iff its time <= now - retention", "the hit is not guarded by points[i].Time <= now.Add(-maxRetention): "+first(badTest))
+}
+
+// splitIndex: the leaf returns (p[k:], p[:k]) (k = 0 also as (p, nil) / (p, p[:0]) / (p[0:], ...)); returns k.
+func splitIndex(e *ddEngine, l ddLeaf, pts ssa.Value, n int) (int, bool) {
+	bound := func(v ssa.Value, def int64) (int64, bool) {
+		if v == nil {
+			return def, true
+		}
+		a := e.value(l.st, v)
+		return a.i, a.k == kInt
+	}
+	// current list: p[k:] or p
+	k := int64(-1)
+	switch x := stripChangeType(l.ret.Results[0]).(type) {
+	case *ssa.Parameter:
+		if ssa.Value(x) == pts {
+			k = 0
+		}
+	case *ssa.Slice:
+		if stripChangeType(x.X) == pts {
+			lo, ok1 := bound(x.Low, 0)
+			hi, ok2 := bound(x.High, int64(n))
+			if ok1 && ok2 && hi == int64(n) {
+				k = lo
+			}
+		}
+	}
+	if k < 0 || k > int64(n) {
+		return 0, false
+	}
+	// remainder: p[:k], or nil / empty when k == 0
+	switch x := stripChangeType(l.ret.Results[1]).(type) {
+	case *ssa.Const:
+		return int(k), k == 0 && x.Value == nil
+	case *ssa.Slice:
+		if stripChangeType(x.X) == pts {
+			lo, ok1 := bound(x.Low, 0)
+			hi, ok2 := bound(x.High, int64(n))
+			return int(k), ok1 && ok2 && lo == 0 && hi == k
+		}
+	case *ssa.MakeSlice:
+		ln, ok := bound(x.Len, 0)
+		return int(k), k == 0 && ok && ln == 0
+	}
+	return 0, false
+}
